@@ -486,6 +486,13 @@ func (ts *TermStore) BinBV(op Op, a, b *Term) *Term {
 			if a.K&(a.K+1) == 0 && b.hi <= a.K {
 				return b
 			}
+			// (u | k) & c = (u & c) | (k & c);  (u & m2) & c = u & (m2 & c)
+			if b.Op == OOr && b.A.IsConst() {
+				return ts.BinBV(OOr, ts.BinBV(OAnd, b.B, a), ts.Const(w, b.A.K&a.K))
+			}
+			if b.Op == OAnd && b.A.IsConst() {
+				return ts.BinBV(OAnd, b.B, ts.Const(w, b.A.K&a.K))
+			}
 		}
 		if a == b {
 			return a
@@ -496,6 +503,18 @@ func (ts *TermStore) BinBV(op Op, a, b *Term) *Term {
 		}
 		if a.IsConst() && a.K == 0 {
 			return b
+		}
+		if a.IsConst() {
+			if a.K == m {
+				return a
+			}
+			// (u | k) | c = u | (k | c);  (u & m2) | c = (u & (m2 &^ c)) | c
+			if b.Op == OOr && b.A.IsConst() {
+				return ts.BinBV(OOr, b.B, ts.Const(w, b.A.K|a.K))
+			}
+			if b.Op == OAnd && b.A.IsConst() && b.A.K&a.K != 0 {
+				return ts.BinBV(OOr, ts.BinBV(OAnd, b.B, ts.Const(w, b.A.K&^a.K)), a)
+			}
 		}
 		if a == b {
 			return a
@@ -522,8 +541,14 @@ func (ts *TermStore) BinBV(op Op, a, b *Term) *Term {
 			return a
 		}
 	}
-	if (op == OAnd || op == OOr || op == OXor) && a.id > b.id {
-		a, b = b, a
+	if op == OAnd || op == OOr || op == OXor {
+		switch {
+		case a.IsConst():
+		case b.IsConst():
+			a, b = b, a
+		case a.id > b.id:
+			a, b = b, a
+		}
 	}
 	return ts.bin(op, w, a, b)
 }
@@ -695,6 +720,12 @@ func (ts *TermStore) pred(op Op, a, b *Term) *Term {
 func (ts *TermStore) Ult(a, b *Term) *Term {
 	if a.IsConst() && b.IsConst() {
 		return ts.Bool(a.K < b.K)
+	}
+	if a.IsConst() && a.K == 0 {
+		return ts.BNot(ts.Eq(b, a))
+	}
+	if b.IsConst() && b.K == 1 {
+		return ts.Eq(a, ts.Const(a.W, 0))
 	}
 	if a == b {
 		return ts.False()
